@@ -77,10 +77,13 @@ def rotAngles (rot : Vec3 α) : α × α × α :=
     let inv := (1 : α) / sintheta
     (sintheta, rot.x * inv, rot.y * inv)
   else if Num.gt sintheta (0 : α) then
-    -- normalise the x/y components, keeping the sign of y; both zero: arbitrary angle
+    -- normalise the x/y components (AS WRITTEN: sin φ = +sqrt(1 − cos²φ), the sign of y is
+    -- lost); both components zero: numerically on the axis, sinθ := 0, arbitrary angle
     let rho := Num.sqrt (rot.x * rot.x + rot.y * rot.y)
-    if Num.gt rho (0 : α) then (sintheta, rot.x / rho, rot.y / rho)
-    else (sintheta, (1 : α), (0 : α))
+    if Num.gt rho (0 : α) then
+      let cosphi := rot.x / rho
+      (sintheta, cosphi, Num.sqrt ((1 : α) - cosphi * cosphi))
+    else ((0 : α), (1 : α), (0 : α))
   else
     (sintheta, (1 : α), (0 : α))
 
